@@ -67,8 +67,8 @@ impl Property for C17 {
     fn params(&self, tier: Tier) -> Params {
         Params {
             cases: match tier {
-                Tier::Quick => 6_000,
-                Tier::Thorough => 150_000,
+                Tier::Quick => 100_000,
+                Tier::Thorough => 1_500_000,
             },
             max_bytes: 256,
             timeout: Duration::from_secs(20),
